@@ -300,13 +300,13 @@ def oracle(case, ires, sres):
             return ("C16/add_tm/no-result", "report %d on a known request id returned %s" % (sub, ret))
         if bool(ret[1]) != (sub in (2, 4, 6, 7, 8)) or bool(ret[1]) != done:
             return ("C16/add_tm/completed-flag", "completed flag %d for subservice %d" % (ret[1], sub))
-        if ret[2:] != st2 or d != [[key_of(FIXED_ID)] + st2]:
-            what = "all-verifs-recvd" if ret[2] != st2[0] else "step-list" if ret[7:] != st2[5:] else "status-fields"
-            return ("C16/add_tm/" + what, "status %s, report %d (step %d) -> %s, state machine says %s" % (st, sub, k, ret[2:], st2))
         if st[3] == 0 and ret[5] != 0:
             return ("C16/add_tm/failed-step-overwritten", "failed step overwritten: %s -> %s" % (st, ret[2:]))
         if st[0] == 1 and ret[2] != 1:
             return ("C16/add_tm/all-verifs-recvd", "all_verifs_recvd reverted: %s -> %s" % (st, ret[2:]))
+        if ret[2:] != st2 or d != [[key_of(FIXED_ID)] + st2]:
+            what = "all-verifs-recvd" if ret[2] != st2[0] else "step-list" if ret[7:] != st2[5:] else "status-fields"
+            return ("C16/add_tm/" + what, "status %s, report %d (step %d) -> %s, state machine says %s" % (st, sub, k, ret[2:], st2))
         if sres and sres[0][1] != [0, int(done)] + st2:
             return ("C16/spec/table", "Coq table %s disagrees with the reference table %s" % (sres[0][1], st2))
         return None
